@@ -108,3 +108,11 @@ def fresh(typ: Any, name: str) -> Any:
         v = core.proxy_for_type(typ, name)
     FRESH[name] = v
     return v
+
+
+def inconclusive(why: str) -> None:
+    """The harness cannot judge this path (e.g. the code uses an API the stubs do not model): the path is counted as
+    *unknown* (the obligation becomes undecided), never as a pass and never as a violation."""
+    if not REPLAY and "crosshair.util" in sys.modules:
+        raise sys.modules["crosshair.util"].CrosshairUnsupported(why)
+    raise PreconditionNotMet(why)
